@@ -581,6 +581,10 @@ class ImageBatch(DataTensor):
         """
         if not isinstance(levels, int):
             raise TypeError(f"{type(self).__name__}.downsample() 'levels' must be of type int")
+        if levels < 0:
+            return self.upsample(
+                -levels, dims=dims, sigma=sigma, mode=mode, align_corners=align_corners
+            )
         if align_corners is None:
             align_corners = self.align_corners()
         data = U.downsample(
@@ -630,6 +634,15 @@ class ImageBatch(DataTensor):
         grid = tuple(
             grid.upsample(levels, dims=dims, align_corners=align_corners) for grid in self._grid
         )
+        if grid and data.shape[2:] != grid[0].shape:
+            # Grid size attribute is fractional, e.g., after downsampling an odd number of samples, such that
+            # the upsampled grid (which restores the original size) differs from twice the tensor size.
+            data = U.grid_resize(
+                self,
+                grid[0].size(),
+                mode=Sampling.LINEAR if mode is None else mode,
+                align_corners=align_corners,
+            )
         return self._make_instance(data, grid)
 
     def pyramid(
